@@ -59,7 +59,13 @@ PROPS["C19"] = {"level": "fault_enumeration",
     "parts": [H("TestC19Verify", "verify", 2500, 60000, qs=2, ts=16), H("TestC19Forward", "forward", 25, 300, qs=2, ts=16),
               H("TestC19Model", "H", 1500, 8000, qs=2, ts=16, hang_is_violation=True), H("TestC19Wire", "W", 200, 2000, qs=1, ts=16, hang_is_violation=True)]}
 
+PROPS["C15"] = {"level": "exploration",
+    "assumptions": ["tokens are built by the reference itself (own base64url/JSON/HMAC code); admission is known by construction, never by parsing", "claim times are kept >= 3 s away from every decision boundary (now, the 10 s issued-at leeway)", "in-process: hdsclient.Client.SetServerData plays the discovery service; which routes cmd/main.go puts behind the check is decided by the binary part (if present)"],
+    "parts": [H("TestC15Auth", "inproc", 6000, 200000, qs=2, ts=16)]}
+
 META = {
+    "C15": {"text": "Stateful property test of both admission entry points (VerifyAuthTokenHandler, WebSocket handshake callback) against a by-construction reference: sequences of secret issuance/rotation/removal and token presentations (valid and every mutation class, all carriers and combinations, earlier token strings presented again after rotation). The inner handler must run exactly when the token is sound for the secret currently held; otherwise 401 and no handler code. Exploration level.",
+            "design_ref": "DESIGN.md 4 (C15)", "note": "Trusted: the token builder/reference in harness/props/c15_test.go; golang-jwt and hagall-common are taken as given but are exercised, not modelled.", "technique": "stateful property-based testing (rapid) with a by-construction reference oracle"},
     "C19": {"text": "Four parts. verify: VerifyPayload against an independent reference (own Keccak-256 call, math/big secp256k1 recoverability) on valid triples and every single-field corruption, both directions. forward: the real HandleReceipts loop posting to an in-process credit service that is up, slow, drops the connection after reading, or is down - the multiset of POSTed bodies must equal the well-formed submissions, unchanged, once each. H/W: receipt-heavy histories against queues of capacity 1/2/128 that nobody drains - exactly one answer per submission (accepted / bad request / too busy), immediately, queue content == accepted receipts, connection stays usable.",
             "design_ref": "DESIGN.md 4 (C19)", "note": "Trusted: the reference implementations in harness/props/c19_test.go; receipt wiring in cmd/main.go (queue size, HandleReceipts started) is outside these parts.", "technique": "property-based testing (rapid) with an independent reference implementation, plus fault injection on the forwarding path"},
     "C20": {"text": "Three generated-input oracles: (grid) insertion sequences of up to 40 quads with forced merges, merge chains and growth in all four directions, all index invariants re-checked after every insertion through exported API; (prim) Dot, Cross, normal, overlap test and ray/quad intersection against math/big.Rat evaluation of the same float32 inputs within stated tolerances; (shared) differential against a local grid fed with the same samples while members join and leave - the index must be shared and kept while the session lives. Exploration level.",
